@@ -216,7 +216,7 @@ impl Scenario for C12 {
         let (a, b) = match fam {
             "hll" => (match rng.below(12) { 0 => 4, 1 if big => 16, _ => rng.range(4, 12) }, rng.below(3)),
             "cpc" => (match rng.below(10) { 0 => 4, _ => rng.range(4, if big { 13 } else { 11 }) }, 0),
-            "theta" => (rng.range(5, 10), rng.below(4)),
+            "theta" => (rng.range(5, 10), rng.below(16)),
             "bloom" => (rng.range(1, 3000), rng.range(1, 9)),
             "cm" => (rng.range(1, 6), rng.range(3, 60)),
             "fi" => (rng.range(3, 8), rng.below(3)),
@@ -421,7 +421,7 @@ impl Scenario for C12 {
                     2 => datasketches::common::ResizeFactor::X4,
                     _ => datasketches::common::ResizeFactor::X8,
                 };
-                let mut sk = ThetaSketch::builder().lg_k((cfg.a as u8).clamp(5, 14)).resize_factor(rf).seed(cfg.seed).build();
+                let mut sk = ThetaSketch::builder().lg_k((cfg.a as u8).clamp(5, 14)).resize_factor(rf).sampling_probability([1.0f32, 1.0, 0.3, 0.01][(cfg.b / 4 % 4) as usize]).seed(cfg.seed).build();
                 for a in acts {
                     st.ticks += 1;
                     match a {
